@@ -223,17 +223,16 @@ def concat(prog: Program, rep: Report):
         LN, nd = loops[0]
         D = ("var", nd.owner.target.id, frozenset({LN}))
         body = cfg.nodes_inside(nd.owner.body)
-        rets = [(n, cfg.nodes[n].ast.value) for n, t in fa.returns()]
+        rets = [(n, fa.ret_ast(n)[0]) for n, t in fa.returns()]
         acc = rets[0][1].id if len(rets) == 1 and isinstance(rets[0][1], ast.Name) else None
-        adds = [n for n in body if cfg.nodes[n].kind == "stmt" and (
-            (isinstance(cfg.nodes[n].ast, ast.AugAssign) and isinstance(cfg.nodes[n].ast.target, ast.Name)
-             and cfg.nodes[n].ast.target.id == acc and isinstance(cfg.nodes[n].ast.op, ast.Add)) or
-            any(isinstance(c.func, ast.Attribute) and c.func.attr == "extend" and isinstance(c.func.value, ast.Name)
-                and c.func.value.id == acc for c in cfg.calls_at(n)))]
+        adds = [n for n, op, e in fa.updates(acc or "", ops=(ast.Add,)) if n in body] + [
+            n for n in body if cfg.nodes[n].kind == "stmt" and any(
+                isinstance(c.func, ast.Attribute) and c.func.attr == "extend" and isinstance(c.func.value, ast.Name)
+                and c.func.value.id == acc for c in cfg.calls_at(n))]
+        upd = {n: e for n, op, e in fa.updates(acc or "", ops=(ast.Add,))}
         src_ok = False
         for n in adds:
-            st = cfg.nodes[n].ast
-            v = st.value if isinstance(st, ast.AugAssign) else cfg.calls_at(n)[0].args[0]
+            v = upd[n] if n in upd else cfg.calls_at(n)[0].args[0]
             names_ = {x[1] for x in leaves(fa.sym.term(v, n)) if x[0] == "var"}
             vt = fa.sym.term(v, n)
             want = ("call", ("call", ("global", "getattr"), (D, ("param", fi.params()[1])), ()), (), ())
@@ -455,7 +454,7 @@ def bulk_helpers(prog: Program, rep: Report):
         ok = items is not None
         bad_ret = None
         for n, t in a.returns():
-            rv = a.cfg.nodes[n].ast.value
+            rv = a.ret_ast(n)[0]
             if rv is None:
                 ok, bad_ret = False, "bare return"
                 continue
